@@ -356,8 +356,12 @@ def structure(root):
         for k in sorted(vars(node)):
             if k in _SKIP_ATTR:
                 continue
-            if k == "_argument_names":     # [(id(child), name)]: keep the names only
-                attrs.append("argnames=" + _val([x[1] for x in vars(node)[k]]))
+            if k == "_argument_names":     # [(id(child), name)], reconciled lazily with the children on
+                try:                       # every read of `argument_names`: read the reconciled view
+                    names = list(node.argument_names)
+                except Exception:  # pylint: disable=broad-except
+                    names = [x[1] for x in vars(node)[k]]
+                attrs.append("argnames=" + _val(names))
                 continue
             s = _val(vars(node)[k])
             if s != "-":
@@ -648,6 +652,7 @@ class Sweep:
         self.findings = []        # refused + changed
         self.other = []           # non-TransformationError exceptions that changed the tree
         self.late = collections.Counter()   # (trans, where) of refusals raised after validate
+        self.accepted = {}        # transformation name -> one accepted (variant, target, options): seeds of histories
         self.n = 0
         self.tree = None
         self.pending = []
@@ -655,8 +660,11 @@ class Sweep:
 
     def _renew(self):
         self.tree = self.prog.fresh()
-        self.base_s = structure_of(self.tree)
+        structure_of(self.tree)
         self.base_c = code_of(self.tree)
+        self.base_s = structure_of(self.tree)      # after code generation: lazily filled caches are in
+        if structure_of(self.tree) != self.base_s or code_of(self.tree) != self.base_c:
+            raise RuntimeError("snapshot of an untouched tree is not stable")
         self.pending = []
 
     def out_of_time(self):
@@ -700,6 +708,8 @@ class Sweep:
             self._record(cls, variant, target, optspec, res, "structure")
             self._renew()
         elif out == "accepted":
+            if cls.__name__ not in self.accepted or self.rng.random() < 0.2:
+                self.accepted[cls.__name__] = (variant, target, optspec)
             # the working tree is now transformed: take a fresh one and put it through the refusals
             # whose written code has not been compared yet
             pending = self.pending
